@@ -307,16 +307,19 @@ func (p *Program) buildStoreIdx() {
 			h := s.Fn
 			s.Fn = LogicalOwner(h) // a transparent helper writes on behalf of its owner
 			if sites := sitesNeedingContext(h); sites != nil {
-				// one entry per call site, operands seen from that site
+				// one entry per call site (and per owner the site executes in), operands seen from that site
 				for _, site := range sites {
-					c := s
-					if c.Base != nil {
-						c.Base = &CtxValue{c.Base, site}
+					for _, o := range siteOwners(site) {
+						c := s
+						c.Fn = o
+						if c.Base != nil {
+							c.Base = &CtxValue{c.Base, site}
+						}
+						if c.Val != nil {
+							c.Val = &CtxValue{c.Val, site}
+						}
+						p.storeIdx[c.Field] = append(p.storeIdx[c.Field], c)
 					}
-					if c.Val != nil {
-						c.Val = &CtxValue{c.Val, site}
-					}
-					p.storeIdx[c.Field] = append(p.storeIdx[c.Field], c)
 				}
 				return
 			}
